@@ -347,3 +347,73 @@ func TestLibraryVolumes(t *testing.T) {
 		}
 	}
 }
+
+func fileReader(f *os.File, start int64) Reader {
+	return func(off int64, n int) []byte {
+		b := make([]byte, n)
+		m, _ := f.ReadAt(b, off+start)
+		return b[:m]
+	}
+}
+
+// TestLibraryGeometry creates empty volumes of several sizes and logs what the
+// structural rules say about each.
+func TestLibraryGeometry(t *testing.T) {
+	mib := int64(1 << 20)
+	cases := []struct {
+		kind string
+		size int64
+	}{
+		{"fat12", 1 * mib}, {"fat12", 1474560}, {"fat12", 2880 * 1024}, {"fat12", 4 * mib}, {"fat12", 8 * mib}, {"fat12", 1474560 + 700},
+		{"fat16", 8 * mib}, {"fat16", 16 * mib}, {"fat16", 32 * mib}, {"fat16", 128 * mib}, {"fat16", 512 * mib}, {"fat16", 1024 * mib}, {"fat16", 32*mib + 1536},
+		{"fat32", 33 * mib}, {"fat32", 40 * mib}, {"fat32", 64 * mib}, {"fat32", 256 * mib}, {"fat32", 1024 * mib}, {"fat32", 3 * 1024 * mib}, {"fat32", 64*mib + 1536}, {"fat32", 64*mib + 100},
+	}
+	for _, c := range cases {
+		c := c
+		t.Run(fmt.Sprintf("%s/%d", c.kind, c.size), func(t *testing.T) {
+			img := filepath.Join(t.TempDir(), "img")
+			f, err := os.OpenFile(img, os.O_CREATE|os.O_RDWR, 0o600)
+			if err != nil {
+				t.Fatal(err)
+			}
+			defer f.Close()
+			if err := f.Truncate(c.size); err != nil {
+				t.Fatal(err)
+			}
+			err, hung := withTimeout(t, 120*time.Second, func() error {
+				fs, err := libCreate(c.kind, f, c.size, 0)
+				if err != nil {
+					return fmt.Errorf("create: %w", err)
+				}
+				if err := libWrite(fs, "probe.txt", []byte("probe")); err != nil {
+					return err
+				}
+				return fs.Close()
+			})
+			if hung {
+				t.Logf("LIBRARY-HANG")
+				return
+			}
+			if err != nil {
+				t.Logf("LIBRARY-ERROR: %v", err)
+			}
+			st, _ := f.Stat()
+			if st.Size() != c.size {
+				t.Logf("NOTE: image file size changed from %d to %d", c.size, st.Size())
+			}
+			r := Check(fileReader(f, 0), c.size)
+			t.Logf("type=%s countclass=%s fstype=%q bps=%d spc=%d rsvd=%d fats=%d fatsz=%d rootent=%d total=%d (range %d sectors) clusters=%d used=%d free=%d lost=%d entries=%d",
+				r.Type, r.CountClass, r.FSTypeText, r.BytesPerSector, r.SectorsPerCluster, r.ReservedSectors, r.NumFATs, r.FATSectors, r.RootEntries, r.TotalSectors, c.size/512,
+				r.ClusterCount, r.Used, r.Free, r.Lost, len(r.Entries))
+			for _, p := range r.Problems {
+				if p.Rule == RuleInternal {
+					t.Errorf("checker bug: %s", p)
+				}
+				t.Logf("PROBLEM %s", p)
+			}
+			if e := r.Find("probe.txt"); e == nil || string(r.ReadFile(fileReader(f, 0), e)) != "probe" {
+				t.Logf("MISMATCH: probe.txt not readable by the checker (%+v)", e)
+			}
+		})
+	}
+}
